@@ -6,7 +6,7 @@ SPEC = hdr_spec(
     prefixes={"C07"}, profiles=[("submit", 7), ("mixed", 2), ("refuse", 1)],
     rule=GEN_RULE + "with one or several subscribers registered at any time, all drained after every op; the monitor applies the stream (attach to parent, discard above) "
          "and compares with the reported tip after every submission and with Hash(0..tip) at every dump; non-trivial = at least 8 submissions",
-    props_file="C07", extra=spine_scripts(['autoclean']),
+    props_file="C07", extra=spine_scripts(['autoclean', 'outage']),
     partial_note="proved for every history of submissions (C07_stream_reconstructs: the subscriber's chain is the repository's best chain; C07_reorg_shape: a reorganisation "
                  "announces exactly the new chain above a common header, lowest first, linked) under one explicit history predicate: no automatic clean is triggered. That the branch update cannot fail (IntersectHash always finds a common branch, Find finds the "
                  "intersect, every height above it is readable) is a theorem there (C07_branch_update_never_fails). Histories with Clean/Save/Load/marking in between and the "
